@@ -11,6 +11,15 @@ by tdda's own database_connection(dbtype='sqlite', db=':memory:').
 Oracle: mc.models.discover_spec (independent exact-statistics model, three
 valued).  Every key of every discovered field is compared; fields, their
 order and the absence of other fields are compared too.
+
+Process state: the worker only imports tdda; every case executes it in a
+child forked from that pristine image (mc.fresh_fork), so the explorer and a
+fresh-process replay see the same state and no case can be influenced by
+another.  Dependence on what the process did before is explored EXPLICITLY in
+two E3 layers (sqlite-hist, pd-hist): a same-named table / same-named columns
+are discovered again after something else, with the differential oracle "the
+last discovery reports what it reports from a fresh state" in front of the
+model (signature history-dependent:<source>:<mode>:<aspect>).
 """
 import collections
 import contextlib
@@ -95,8 +104,16 @@ class C07(Check):
             '/ TEXT / BOOLEAN / DATETIME x 3 column names, 14 more declared '
             'type names (0..2 rows), many-category TEXT columns; every '
             'two-column frame / table over ordered pairs of families / types '
-            'with 2 rows; non-trivial = the model requires at least one '
-            'statistic beyond the type')
+            'with 2 rows; E3: every history (first table/frame with a fixed '
+            '2-row column of type A) -> (same-named table/frame of type B, '
+            '0..2 rows over a 3-/2-value sub-alphabet) for all ordered type '
+            'pairs x modes {new :memory: database with the first connection '
+            'kept open, DROP+CREATE in the same database | new frame object, '
+            'same frame object with replaced columns}, plus exchanged column '
+            'types, an inserted leading column and the category boundary '
+            '(thorough: two earlier steps, 14 more declared types); '
+            'non-trivial = the model requires at least one statistic beyond '
+            'the type')
     assumptions = [
         'pandas 3.0.6 / numpy 2.5 / sqlite3 of python 3.12; values outside '
         'the alphabets, > 4 rows (except many-category columns) and > 2 '
@@ -114,6 +131,10 @@ class C07(Check):
         'min/max there; SQLite DATETIME values are canonical '
         '"YYYY-MM-DD HH:MM:SS" text',
         'float bounds are compared with == on exactly representable values',
+        'every case starts from the process state "tdda imported, never '
+        'called" (forked child); state kept by tdda between calls is explored '
+        'only through the explicit histories of the sqlite-hist / pd-hist '
+        'layers (depth 1, thorough 2)',
     ]
 
     # ----------------------------------------------------------- enumeration
@@ -266,61 +287,8 @@ class C07(Check):
 
     @staticmethod
     def pd_histories(thorough):
-        fams = FA.BASE_FAMILIES + (FA.EXTRA_FAMILIES if thorough else [])
-        nb = 3 if thorough else 2
-
-        def fixed(fam, name='a'):
-            return {'name': name, 'fam': fam,
-                    'v': FA.FAMILIES[fam]['values'][-2:]}
-        for fa in fams:
-            A = fixed(fa)
-            for fb in fams:
-                vb = FA.FAMILIES[fb]['values'][:nb]
-                for n in (2, 0, 1):
-                    for tup in itertools.product(vb, repeat=n):
-                        B = {'name': 'a', 'fam': fb, 'v': list(tup)}
-                        if fa == fb and B['v'] == A['v']:
-                            continue
-                        for mode in ('new-frame', 'same-object'):
-                            if mode == 'same-object' and n != 2:
-                                continue     # in-place needs equal length
-                            yield {'src': 'pd', 'mode': mode,
-                                   'hist': [{'cols': [A]}],
-                                   'frame': {'cols': [B]}}
-        # the two columns exchange their types
-        for fa in fams:
-            for fb in fams:
-                if fa == fb:
-                    continue
-                for mode in ('new-frame', 'same-object'):
-                    yield {'src': 'pd', 'mode': mode,
-                           'hist': [{'cols': [fixed(fa, 'a'),
-                                              fixed(fb, 'b c')]}],
-                           'frame': {'cols': [fixed(fb, 'a'),
-                                              fixed(fa, 'b c')]}}
-        # category-count boundary after a column on the other side of it
-        for n1, n2 in ((21, 20), (20, 21), (25, 2), (2, 25), (19, 21)):
-            for fam2 in ('manycat', 'cat'):
-                if fam2 == 'cat' and n2 > 3:
-                    continue
-                v2 = FA.manycat_values(n2, 0, 0) if fam2 == 'manycat' \
-                    else ['a', 'B1']
-                yield {'src': 'pd', 'mode': 'new-frame',
-                       'hist': [{'cols': [{'name': 'a', 'fam': 'manycat',
-                                           'v': FA.manycat_values(n1, 0,
-                                                                  1)}]}],
-                       'frame': {'cols': [{'name': 'a', 'fam': fam2,
-                                           'v': v2}]}}
-        if thorough:
-            # two earlier frames
-            for fa in FA.BASE_FAMILIES:
-                for fc in FA.BASE_FAMILIES:
-                    for fb in FA.BASE_FAMILIES:
-                        for mode in ('new-frame', 'same-object'):
-                            yield {'src': 'pd', 'mode': mode,
-                                   'hist': [{'cols': [fixed(fa)]},
-                                            {'cols': [fixed(fc)]}],
-                                   'frame': {'cols': [fixed(fb)]}}
+        for h in FA.frame_histories(thorough):
+            yield dict(h, src='pd')
 
     # ---------------------------------------------------------------- worker
     def setup_worker(self, tier):
@@ -412,12 +380,7 @@ class C07(Check):
             self.mutate(df, case['frame'])
         return self.observe(self.discover_df, df), n + 1
 
-    @staticmethod
-    def mutate(df, frame):
-        """Turn the frame object into `frame` in place (same row count and
-        column names: the columns are assigned one by one)."""
-        for c in frame['cols']:
-            df[c['name']] = FA.build_series(c)
+    mutate = staticmethod(FA.mutate_into)
 
     # ------------------------------------------------------------------ run
     def fresh(self, fn, case):
